@@ -78,11 +78,27 @@ fn panic_class(m: &str) -> String {
 /// The real lexer's token stream (comments dropped), encoded like `encTok` in the driver, and
 /// the first error it records other than the two bracket-matching errors (those come from the
 /// pre-pass `Lexer::build`, which the token-level model does not have).
-fn real_lex(src: &str) -> (Vec<i64>, Option<String>) {
+fn real_lex(src: &str) -> (Vec<i64>, Option<String>, Vec<i64>) {
     use bwl::lexer::TokenValue as T;
     let errs: bwl::ErrorAccumulator = Default::default();
     let lexer = bwl::lexer::Lexer::new(src, errs.clone());
     let mut out: Vec<i64> = vec![];
+    // byte offset of the closer the pre-pass matched each opening bracket with (from the Debug
+    // form of the opaque `ClosingParen`), -1 = unmatched
+    let mut closers: Vec<i64> = vec![];
+    let closer_of = |c: &Option<bwl::lexer::ClosingParen>| -> i64 {
+        match c {
+            None => -1,
+            Some(c) => {
+                let d = format!("{c:?}");
+                d.split("source_idx: ")
+                    .nth(1)
+                    .and_then(|t| t.split(|ch: char| !ch.is_ascii_digit()).next())
+                    .and_then(|t| t.parse().ok())
+                    .unwrap_or(-2)
+            }
+        }
+    };
     let enc_str = |out: &mut Vec<i64>, s: &str| {
         out.push(s.chars().count() as i64);
         out.extend(s.chars().map(|c| c as i64));
@@ -94,9 +110,15 @@ fn real_lex(src: &str) -> (Vec<i64>, Option<String>) {
                 out.push(0);
                 enc_str(&mut out, &format!("{}", t.source));
             }
-            T::RoundOpen { .. } => out.push(1),
+            T::RoundOpen { closing } => {
+                out.push(1);
+                closers.push(closer_of(closing));
+            }
             T::RoundClose => out.push(2),
-            T::SquareOpen { .. } => out.push(3),
+            T::SquareOpen { closing } => {
+                out.push(3);
+                closers.push(closer_of(closing));
+            }
             T::SquareClose => out.push(4),
             T::Comma => out.push(5),
             T::Equal => out.push(6),
@@ -120,11 +142,48 @@ fn real_lex(src: &str) -> (Vec<i64>, Option<String>) {
     }
     let first = match errs.check() {
         Ok(()) => None,
-        Err(v) => err_variants_in(src, &v)
-            .into_iter()
-            .find(|n| n != "UnmatchedOpeningBracket" && n != "MismatchedBraces"),
+        Err(v) => {
+            let names = err_variants_in(src, &v);
+            names
+                .iter()
+                .position(|n| n != "UnmatchedOpeningBracket" && n != "MismatchedBraces")
+                .map(|i| {
+                    // class and the byte range of the (only) label
+                    let sp = v[i].labels().first().map(|l| l.span.clone()).unwrap_or(0..0);
+                    format!("{} {} {}", names[i], sp.start, sp.end)
+                })
+        }
     };
-    (out, first)
+    (out, first, closers)
+}
+
+/// Which characters `char::escape_debug` (std) leaves unescaped, among printable ASCII and the
+/// characters of the list. The model takes this as its parameter `raw`.
+fn raw_set(l: &[N]) -> Vec<i64> {
+    fn chars_of(l: &[N], out: &mut Vec<u32>) {
+        for n in l {
+            match n {
+                N::Char(c, _) => out.push(*c),
+                N::Lig { c, orig, .. } => {
+                    out.push(*c);
+                    out.extend(orig.iter().copied());
+                }
+                _ => {}
+            }
+            for ch in n.children() {
+                chars_of(ch, out);
+            }
+        }
+    }
+    let mut cands: Vec<u32> = (0x20..0x7f).collect();
+    chars_of(l, &mut cands);
+    cands.sort();
+    cands.dedup();
+    cands
+        .into_iter()
+        .filter(|c| char::from_u32(*c).map(|ch| ch.escape_debug().count() == 1).unwrap_or(false))
+        .map(|c| c as i64)
+        .collect()
 }
 
 fn print_h(list: &[ds::Horizontal], style: u32) -> String {
@@ -306,41 +365,55 @@ impl C18 {
                 }));
             }
         }
-        let text_sec = match &printed {
-            Ok(t) => cps(t),
-            Err(_) => "-".into(),
-        };
-        // Which characters `char::escape_debug` (std) leaves unescaped: printable ASCII and
-        // the characters of this case. The model takes this as its parameter `raw`.
-        let mut raw: Vec<i64> = vec![];
-        {
-            let mut cands: Vec<u32> = (0x20..0x7f).collect();
-            fn chars_of(l: &[N], out: &mut Vec<u32>) {
-                for n in l {
-                    match n {
-                        N::Char(c, _) => out.push(*c),
-                        N::Lig { c, orig, .. } => {
-                            out.push(*c);
-                            out.extend(orig.iter().copied());
+        // `Display for ds::VBox` (an observation point of the property) must write what
+        // `Display for ds::Horizontal::VBox` writes; the latter is compared with the model and
+        // round-tripped above.
+        if mode == Mode::H {
+            for n in l.iter().filter(|n| matches!(n, N::VBox { .. })) {
+                let vb = mk_vbox(n);
+                match caught(|| (format!("{vb}"), format!("{}", ds::Horizontal::VBox(vb.clone())))) {
+                    Err(p) => out.fail(Kind::ImplPanic, stream, format!("print panic {}", panic_class(&p)), p),
+                    Ok((a, b)) => {
+                        out.tag("display:ds::VBox");
+                        // and the model: the text is renderCalls raw 0 [lowerNode vbox], and Lean's
+                        // parser reads it back as that box (display_vbox_round_trip)
+                        let one = std::slice::from_ref(n);
+                        let mut rq = vec![];
+                        enc_req_list(one, &mut rq);
+                        let rp = drv.ask(&format!("rt H 0 | {} | {} | {}", join(&rq), cps(&a), join(&raw_set(one))));
+                        let rp = rp.split(" | ").next().unwrap_or("").to_string();
+                        if field(&rp, "txt") != "1" {
+                            out.fail(
+                                Kind::ImplVsModel,
+                                stream,
+                                "Display for ds::VBox differs from the model's rendering",
+                                format!("{rp}\ntext: {a}"),
+                            );
+                        } else if field(&rp, "lex") == "ok" && field(&rp, "repr") == "1" && field(&rp, "nspec") != "1" {
+                            out.fail(
+                                Kind::ImplVsSpec,
+                                stream,
+                                "Display for ds::VBox: Lean's parser does not read the box back",
+                                format!("{rp}\ntext: {a}"),
+                            );
                         }
-                        _ => {}
-                    }
-                    for ch in n.children() {
-                        chars_of(ch, out);
-                    }
-                }
-            }
-            chars_of(l, &mut cands);
-            cands.sort();
-            cands.dedup();
-            for c in cands {
-                if let Some(ch) = char::from_u32(c) {
-                    if ch.escape_debug().count() == 1 {
-                        raw.push(c as i64);
+                        if a != b {
+                            out.fail(
+                                Kind::ImplVsSpec,
+                                stream,
+                                "Display for ds::VBox differs from the list printer's text for the same box",
+                                format!("Display for ds::VBox:\n{a}\nDisplay for ds::Horizontal::VBox:\n{b}"),
+                            );
+                        }
                     }
                 }
             }
         }
+        let text_sec = match &printed {
+            Ok(t) => cps(t),
+            Err(_) => "-".into(),
+        };
+        let raw = raw_set(l);
         let reply_full = drv.ask(&format!("rt {mname} {style} | {} | {} | {}", join(&req), text_sec, join(&raw)));
         let (reply, model_text) = match reply_full.split_once(" | ") {
             Some((a, b)) => (a.to_string(), Some(b.to_string())),
@@ -638,7 +711,7 @@ impl C18 {
             join(&raw)
         ));
         let secs: Vec<&str> = reply.split(" | ").collect();
-        if secs.len() != 5 {
+        if secs.len() != 6 {
             panic!("driver reply malformed: {reply}");
         }
         match secs[4].trim() {
@@ -654,7 +727,20 @@ impl C18 {
         // token streams and lexer error classes
         match caught(|| real_lex(text)) {
             Err(p) => out.fail(Kind::ImplPanic, stream_t, format!("panic {}{attr}", panic_class(&p)), format!("lexer: {p}")),
-            Ok((toks, first_err)) => {
+            Ok((toks, first_err, closers)) => {
+                // the pre-pass: model list (up to the model's first error) is a prefix of the real one
+                let bm: Vec<i64> = parse_i64s(secs[5].strip_prefix("B=").unwrap_or(""));
+                let agree = if secs[3].starts_with("L=ok") { bm == closers } else { closers.len() >= bm.len() && closers[..bm.len()] == bm[..] };
+                if !agree {
+                    out.fail(
+                        Kind::ImplVsModel,
+                        "lex_model",
+                        format!("bracket pre-pass: matching closers differ from the model's closeScan{attr}"),
+                        format!("model: {}\nreal:  {}", join(&bm), join(&closers)),
+                    );
+                } else if !bm.is_empty() {
+                    out.tag("model_prepass:identical");
+                }
                 let l = secs[3].strip_prefix("L=").unwrap_or("");
                 if let Some(ints) = l.strip_prefix("ok") {
                     out.tag("model_lex:ok");
@@ -662,7 +748,7 @@ impl C18 {
                         out.fail(
                             Kind::ImplVsModel,
                             "lex_model",
-                            format!("model lexes the text, the real lexer reports {e}{attr}"),
+                            format!("model lexes the text, the real lexer reports {}{attr}", e.split(' ').next().unwrap_or("")),
                             format!("model tokens: {ints}"),
                         );
                     } else if join(&toks) != ints.trim() {
@@ -674,14 +760,25 @@ impl C18 {
                         );
                     }
                 } else if let Some(cls) = l.strip_prefix("err ") {
-                    out.tag(format!("model_lex:err:{cls}"));
-                    if first_err.as_deref() != Some(cls.trim()) {
+                    let mcls = cls.trim().split(' ').next().unwrap_or("").to_string();
+                    out.tag(format!("model_lex:err:{mcls}"));
+                    let rcls = first_err.as_deref().map(|e| e.split(' ').next().unwrap_or("").to_string());
+                    if rcls.as_deref() != Some(mcls.as_str()) {
                         out.fail(
                             Kind::ImplVsModel,
                             "lex_model",
-                            format!("first lexer error: model {cls}, real {}{attr}", first_err.clone().unwrap_or("none".into())),
+                            format!("first lexer error: model {mcls}, real {}{attr}", rcls.unwrap_or("none".into())),
                             format!("real tokens: {}", join(&toks)),
                         );
+                    } else if first_err.as_deref() != Some(cls.trim()) {
+                        out.fail(
+                            Kind::ImplVsModel,
+                            "lex_model",
+                            format!("label span of {mcls}: model and real lexer differ{attr}"),
+                            format!("model: {}\nreal:  {}", cls.trim(), first_err.clone().unwrap_or_default()),
+                        );
+                    } else {
+                        out.tag("model_lex:span-identical");
                     }
                 } else {
                     out.fail(Kind::ModelVsSpec, "lex_model", "model lexer ran out of fuel", l.to_string());
